@@ -757,6 +757,12 @@ def rule_id_guard(prop, repo, N):
         zatoms = [a for a in atoms if a[0] == "bool" and a[1][0] == "call" and a[1][1].name == "is_zero"]
         rows = 0
         bad = []
+        early = []
+        # (the converse below is only read when `is_zero` is the one way this function asks about the identity: another spelling —
+        # `to_affine().is_none()` — would make "no is_zero answered yes" mean nothing)
+        def mentions_identity(t):
+            return any(x[0] in ("call", "mutcall") and getattr(x[1], "name", "") in ("to_affine", "is_none", "is_some", "is_one", "eq", "ne") for x in walk(t))
+        only_zero_tests = not any(mentions_identity(a[1]) for a in atoms if a not in zatoms and isinstance(a[1], tuple))
         for asg in paths.enumerate_assignments(atoms):
             res = paths.simulate(b, tb, paths.Evaluator(asg))
             if res.end != "return":
@@ -766,7 +772,15 @@ def rule_id_guard(prop, repo, N):
                 v = paths.path_value(b, tb, res.blocks, 0)
                 if not all(one_shaped(F, b, x) for x in alts(v)):
                     bad.append(show(v, maxdepth=3)[:160])
-        R.check(not bad, "%s:identity-result:%s" % (prop, b.rec["path"]), "%s returns something other than one on an identity edge: %s" % (b.rec["path"], bad[:1]),
+            elif zatoms and only_zero_tests:
+                # … and only there: with no operand the identity, `one` is not the pairing value (non-degeneracy), so a path that
+                # hands out the literal `one` although every identity test answered "no" gives up on a valid input
+                v = paths.path_value(b, tb, res.blocks, 0)
+                if all(one_shaped(F, b, x) for x in alts(v)):
+                    early.append({show(a[1], maxdepth=2)[:60]: bool(v2) for a, v2 in asg.items() if a not in zatoms})
+        R.check(not bad and not early, "%s:identity-result:%s" % (prop, b.rec["path"]),
+                ("%s returns something other than one on an identity edge: %s" % (b.rec["path"], bad[:1])) if bad else
+                ("%s returns the literal one on a path where no operand tested identity (%s)" % (b.rec["path"], early[:1])),
                 b.file_line(), b.rec["path"], sample={"entry": b.rec["path"], "identity_tests": len(zatoms), "paths": rows})
     # the Jacobian entry point guards through to_affine(): both None arms must yield one
     pb = F.bodies.get("crate::pairings::pairing")
